@@ -17,7 +17,7 @@ PROPS = {
         assumptions=[],
     ),
     "C11": dict(
-        units=["leader"],
+        units=["leader", "replica"],
         level="proof",
         level_text="Deductive proof (Verus) over the real text of Schedule::view_leader, Schedule::get and "
                    "LeaderSelection::leader_weighted_eligibility: for every well-formed schedule and every 64-bit view the function "
@@ -57,7 +57,7 @@ PROPS = {
         assumptions=[],
     ),
     "C02": dict(
-        units=["implied"],
+        units=["implied", "replica"],
         level="proof",
         level_text="Deductive proof (Verus), one-step form of the property. On the real text: TimeoutQC::high_vote returns exactly THE "
                    "header whose reporters' weight reaches n-3f (None if there is none or more than one), computed without overflow for "
@@ -115,6 +115,24 @@ PROPS = {
                    "cross-endpoint composition; the noise handshake loop is covered under C10 when claimed.",
         technique="contract-based deductive verification (Verus on extracted real functions; ghost wire sequence on the transport stub)",
         design_ref="DESIGN.md §5 C13",
+        assumptions=[],
+    ),
+    "C03": dict(
+        units=["replica"],
+        level="proof",
+        level_text="(being extended) handler postconditions + persist-before-send ghost monitor on the real text of the replica handlers",
+        level_note="see DESIGN.md",
+        technique="contract-based deductive verification (Verus on extracted real handlers; ghost monitor at every send site)",
+        design_ref="DESIGN.md §5 C03",
+        assumptions=[],
+    ),
+    "C05": dict(
+        units=["replica"],
+        level="proof",
+        level_text="(being extended) handler accept conditions and certificate monotonicity on the real text of the replica handlers",
+        level_note="see DESIGN.md",
+        technique="contract-based deductive verification (Verus on extracted real handlers)",
+        design_ref="DESIGN.md §5 C05",
         assumptions=[],
     ),
 }
